@@ -208,6 +208,48 @@ def search(ctx, deep):
                 ctx.fail_input(f'{fam}.percent_point', {'theta': th, 'container': name, 'y': list(map(float, yv)), 'v': list(map(float, vv))},
                                {'got': got.tolist(), 'ndarray_answer': want.tolist()},
                                'the i-th output depends only on (y[i], v[i]) whatever the container', f'{fam}.percent_point:container-dependent[{name}]')
+    # a finely resolved quantile curve: consecutive, nearly equal probabilities (relative step 1e-7) at one v are each
+    # inverted on their own — same residual bound as anywhere else, same values as when asked one by one or reversed
+    for fam in B.FAMS:
+        for th in B.theta_all(fam)[:4]:
+            c = B.make(fam, th)
+            for y0, v0 in ((0.3, 0.6), (0.72, 0.25)):
+                ys = y0 * (1 + 1e-7 * np.arange(12))
+                vs = np.full(12, v0) * (1 + 1e-9 * np.arange(12))
+                checked += 1
+                try:
+                    with np.errstate(all='ignore'):
+                        fwd = np.asarray(c.percent_point(ys.copy(), vs.copy()), dtype=float)
+                        rev = np.asarray(c.percent_point(ys[::-1].copy(), vs[::-1].copy()), dtype=float)[::-1]
+                        solo = np.array([float(np.asarray(c.percent_point(ys[i:i + 1].copy(), vs[i:i + 1].copy())).ravel()[0]) for i in range(12)])
+                except Exception as e:  # noqa
+                    ctx.count(f'fine-grid:{fam}:raises({vc.exc_kind(e)})')
+                    continue
+                res = np.array([resid(fam, th, fwd[i], ys[i], vs[i]) for i in range(12)])
+                if not (np.all(np.abs(fwd - solo) <= 1e-12) and np.all(np.abs(rev - solo) <= 1e-12) and np.all(np.abs(res) <= 1e-8)):
+                    found += 1
+                    ctx.fail_input(f'{fam}.percent_point', {'theta': th, 'y': ys.tolist(), 'v': vs.tolist()},
+                                   {'batch': fwd.tolist(), 'reversed_batch': rev.tolist(), 'one_by_one': solo.tolist(), 'max|h-y|': float(np.max(np.abs(res)))},
+                                   'output i depends only on (y_i, v_i): nearly equal neighbours are each inverted on their own',
+                                   f'{fam}.percent_point:lane-dependence')
+                    break
+    # batch size (closed-form family): vectors longer than any internal block, lengths 4096k+1 included
+    for th in B.theta_all('clayton')[:3]:
+        c = B.make('clayton', th)
+        for n in (257, 4097, 5000, 8193):
+            rs = np.random.RandomState(n)
+            ys, vs = rs.uniform(1e-3, 1 - 1e-3, n), rs.uniform(1e-3, 1 - 1e-3, n)
+            checked += 1
+            with np.errstate(all='ignore'):
+                whole = np.asarray(c.percent_point(ys.copy(), vs.copy()), dtype=float)
+                pieces = np.concatenate([np.asarray(c.percent_point(ys[i:i + 61].copy(), vs[i:i + 61].copy()), dtype=float).ravel() for i in range(0, n, 61)])
+            if whole.shape != (n,) or not np.array_equal(whole, pieces, equal_nan=True):
+                i = int(np.argmax(whole != pieces)) if whole.shape == pieces.shape else -1
+                found += 1
+                ctx.fail_input('clayton.percent_point', {'theta': th, 'n': n, 'generator': 'rs = RandomState(n); y, v = rs.uniform(1e-3, 1-1e-3, n) twice', 'lane': i},
+                               {'whole_batch': float(whole[i]) if i >= 0 else list(whole.shape), 'in_pieces_of_61': float(pieces[i]) if i >= 0 else list(pieces.shape)},
+                               'output i depends only on (y_i, v_i), whatever the length of the vectors', 'clayton.percent_point:batch-size-dependent')
+                break
     # purity: an earlier result keeps its values when percent_point is called again (same object, another object of
     # the family) on equally long vectors, and a repeated call gives the same values
     for fam in B.FAMS:
